@@ -1052,12 +1052,32 @@ class FnEmitter:
                         except Exception:
                             continue
                         cands[mm.group(1)].append(ty)
+            # result stored into a typed slot through a cast:  %q = bitcast T** %p to i8** ; store i8* %x, i8** %q
+            slot = {}
+            for bname, pl in parsed.items():
+                for s_, toks in pl:
+                    mm = re.match(r'\s*(%[-\w.$"]+) = bitcast (.*)\*\* (%[-\w.$"]+) to i8\*\*$', s_.split(', !')[0].strip())
+                    if mm:
+                        try:
+                            slot[mm.group(1)] = parse_type(Toks(tokenize(mm.group(2)), s_))
+                        except Exception:
+                            pass
+            for bname, pl in parsed.items():
+                for s_, toks in pl:
+                    mm = re.match(r'\s*store i8\* (%[-\w.$"]+), i8\*\* (%[-\w.$"]+)', s_)
+                    if mm and mm.group(1) in news and mm.group(2) in slot:
+                        cands[mm.group(1)].append(slot[mm.group(2)])
             for x, tys in cands.items():
                 n = news[x]
                 pick = None
                 if re.fullmatch(r'\d+', n):
                     for ty in tys:
                         if em.size_align(ty)[0] == int(n): pick = ty; break
+                    if pick is None:
+                        # array allocation of constant byte size (e.g. a std::deque node: 512 bytes of lit)
+                        for ty in tys:
+                            sz = em.size_align(ty)[0]
+                            if sz and int(n) % sz == 0 and not (isinstance(ty, IntTy) and ty.n == 8): pick = ty; break
                 else:
                     for ty in tys:
                         sz = em.size_align(ty)[0]
@@ -1118,6 +1138,8 @@ class FnEmitter:
             out.append('  %s %s;' % (em.cty(t), self.lname(nm)))
         out.extend(self.decls)
         out.extend(pro)
+        if mangle(f.name) in em.opts.get('entries', ()):
+            out.append('  __ll2c_global_ctors(); /* dynamic initialisers of namespace-scope objects (e.g. rational::ZERO) */')
         for b in body:
             out.extend(b)
         out.append('}')
@@ -1309,7 +1331,7 @@ class FnEmitter:
                 self.decls.append('  %s %s_mem[%d];' % (em.cty(t), nm, cnt.v))
                 self.define(res, PtrTy(t), '&%s_mem[0]' % nm)
             else:
-                self.define(res, PtrTy(t), '(%s*)malloc(sizeof(%s) * %s)' % (em.cty(t), em.cty(t), self.val(ct, cnt)))
+                self.define(res, PtrTy(t), '(%s*)LL2C_MALLOC(sizeof(%s) * %s)' % (em.cty(t), em.cty(t), self.val(ct, cnt)))
             return
         if op == 'load':
             tk.accept('atomic'); tk.accept('volatile')
@@ -1485,10 +1507,11 @@ class FnEmitter:
         callexpr = '%s(%s)' % (fexpr, ', '.join(argexprs))
         if callee_name in ('@_Znwm', '@_Znam') and res in getattr(self, 'alloc_ty', {}):
             ct = em.cty(self.alloc_ty[res])
-            self.define(res, rt, '(u8*)malloc(sizeof(%s) * (%s / sizeof(%s)))' % (ct, argexprs[0], ct))
-            L.append('  __CPROVER_assume(%s != 0);' % self.lname(res))
+            self.define(res, rt, '(u8*)LL2C_MALLOC(sizeof(%s) * (%s / sizeof(%s)))' % (ct, argexprs[0], ct))
             if op == 'invoke': L.append('  ' + self.goto(bname, normal))
             return
+        if callee_name in ('@_Znwm', '@_Znam'):
+            sys.stderr.write('ll2c: warning: untyped allocation (byte array) in %s: %s\n' % (self.f.name[:80], argexprs[0][:40]))
         special = self.special_call(callee_name, res, rt, args, argexprs, op, bname, normal, unwind)
         if special:
             return
@@ -1521,6 +1544,21 @@ class FnEmitter:
                     msg = g[1].data.rstrip(b'\x00').decode('latin1').replace('\\', '/').replace('"', "'")
             L.append('  __CPROVER_assert(%s, "%s");' % (A[0], msg))
             return True
+        if n == 'verif_param':
+            self.define(res, rt, self.mask(rt, '__verif_params[%s]' % A[0]))
+            if op == 'invoke': L.append('  ' + self.goto(bname, normal))
+            return True
+        if n == '__verif_witness':
+            L.append('#ifndef NO_WITNESS')
+            L.append('  __CPROVER_assert(0, "WITNESS");')
+            L.append('#endif')
+            if op == 'invoke': L.append('  ' + self.goto(bname, normal))
+            return True
+        if n.startswith('nondet_') and res:
+            self.define(res, rt, '%s()' % self.em.gname(name))
+            L.append('  LL2C_INPUT(%s);' % self.lname(res))
+            if op == 'invoke': L.append('  ' + self.goto(bname, normal))
+            return True
         if n == '__CPROVER_assume':
             L.append('  __CPROVER_assume(%s);' % A[0])
             return True
@@ -1541,8 +1579,10 @@ class FnEmitter:
         if n == '__cxa_begin_catch':
             L.append('  __ll2c_exc_active = 0;')
             if res: self.define(res, rt, A[0])
+            if op == 'invoke': L.append('  ' + self.goto(bname, normal))
             return True
         if n == '__cxa_end_catch':
+            if op == 'invoke': L.append('  ' + self.goto(bname, normal))
             return True
         if n == '__cxa_pure_virtual':
             L.append('  __CPROVER_assert(0, "PURE-VIRTUAL-CALL"); __CPROVER_assume(0);')
@@ -1660,9 +1700,21 @@ double ceil(double); double floor(double); double sqrt(double); double fabs(doub
 #define __CPROVER_assume(c) do { if(!(c)) exit(77); } while(0)
 #define __CPROVER_assert(c, m) assert((c) && m)
 #define LL2C_SAME_OBJECT(a, b) 1
+#define LL2C_MALLOC(n) malloc(n)
+#define LL2C_FREE(p) free(p)
 #else
 #define LL2C_SAME_OBJECT(a, b) __CPROVER_same_object((a), (b))
+/* allocation never fails and free is a no-op: allocation failure, use-after-free and leaks are outside every claim;
+   cbmc's library malloc/free add nondeterministic bookkeeping that makes later guards symbolic */
+#define LL2C_MALLOC(n) __CPROVER_allocate((n), 0)
+#define LL2C_FREE(p) ((void)0)
 #endif
+#ifndef VERIF_PARAMS
+#define VERIF_PARAMS 0
+#endif
+static const int __verif_params[] = { VERIF_PARAMS, 0 };
+extern i64 __ll2c_last_in; extern u64 __ll2c_in_count;
+#define LL2C_INPUT(v) do { __ll2c_last_in = (i64)(v); __ll2c_in_count++; } while (0)
 /* typed element-wise copies: keep heap cells typed (no byte_extract of pointers) so that cbmc can constant-propagate through std::vector growth */
 #define LL2C_BYTES_FWD(D, S, N) do { u8 *bd_ = (u8*)(D); const u8 *bs_ = (const u8*)(S); u64 bn_ = (u64)(N); for (u64 j_ = 0; j_ < bn_; j_++) bd_[j_] = bs_[j_]; } while (0)
 #define LL2C_BYTES_BWD(D, S, N) do { u8 *bd_ = (u8*)(D); const u8 *bs_ = (const u8*)(S); u64 bn_ = (u64)(N); for (u64 j_ = bn_; j_ > 0; j_--) bd_[j_ - 1] = bs_[j_ - 1]; } while (0)
@@ -1676,7 +1728,7 @@ double ceil(double); double floor(double); double sqrt(double); double fabs(doub
 int memcmp(const void*, const void*, unsigned long); int bcmp(const void*, const void*, unsigned long); unsigned long strlen(const char*); void *memchr(const void*, int, unsigned long);
 static u64 __ll2c_cttz64(u64); static u32 __ll2c_cttz32(u32); static u16 __ll2c_cttz16(u16); static u8 __ll2c_cttz8(u8); static u64 __ll2c_ctlz64(u64); static u32 __ll2c_ctlz32(u32);
 static void __ll2c_umul_ov64(u64, u64, u64*, _Bool*); static void __ll2c_uadd_ov64(u64, u64, u64*, _Bool*);
-void __cxa_pure_virtual(void);
+void __cxa_pure_virtual(void); void __ll2c_global_ctors(void);
 extern int __ll2c_exc_active; extern void *__ll2c_exc_ptr; extern void *__ll2c_exc_type; extern int __ll2c_exc_sel;
 '''
 
@@ -1692,7 +1744,7 @@ def emit_module(m, opts):
             ps = [em.cty(t) for (t, nm, a) in f.params]
             if f.vararg: ps.append('...')
             n = mangle(name)
-            if n in ('__assert_fail', '__cxa_throw', '__clang_call_terminate', '__cxa_rethrow', '__cxa_begin_catch', '__cxa_end_catch', '__cxa_pure_virtual', '_ZSt9terminatev') or re.match(r'_ZSt\d+__throw_', n) or n in PRELUDE_FUNCS or n.startswith('__CPROVER_') or n == '__gxx_personality_v0': continue
+            if n in ('verif_param', '__verif_witness', '__assert_fail', '__cxa_throw', '__clang_call_terminate', '__cxa_rethrow', '__cxa_begin_catch', '__cxa_end_catch', '__cxa_pure_virtual', '_ZSt9terminatev') or re.match(r'_ZSt\d+__throw_', n) or n in PRELUDE_FUNCS or n.startswith('__CPROVER_') or n == '__gxx_personality_v0': continue
             if n in ZERO_STUBS:
                 ps2 = ['%s a%d' % (em.cty(t), i) for i, (t, nm, a) in enumerate(f.params)]
                 zb = 'return;' if isinstance(f.ret, VoidTy) else ('%s r = %s; return r;' % (em.cty(f.ret), em.zero(f.ret, static=True)))
@@ -1767,12 +1819,13 @@ def main():
     ap.add_argument('-o', '--output', required=True)
     ap.add_argument('--no-exceptions', action='store_true')
     ap.add_argument('--narrow', type=int, default=0)
+    ap.add_argument('--entries', default='')
     args = ap.parse_args()
     if args.narrow:
         NARROW.update({64: args.narrow, 32: args.narrow, 128: 2 * args.narrow})
     text = open(args.input).read()
     m = parse_module(text)
-    opts = {'exceptions': not args.no_exceptions}
+    opts = {'exceptions': not args.no_exceptions, 'entries': set(x for x in args.entries.split(',') if x)}
     em, out, fpl, gdecl, protos, gdef, bodies = emit_module(m, opts)
     # function-pointer typedefs can be needed inside struct definitions: emit them as forward typedefs using
     # pointer-only parameter types first.  Simplest ordering: forward struct decls, fn typedefs, struct defs.
